@@ -25,12 +25,12 @@ Tr == ndJsonDeserialize(IOEnv.VERIF_IN)[1]
 TrSenders == 1..Tr.ncalls
 TrMaxSb == Tr.nsb
 
-VARIABLES l, inq, rxn
-tvars == <<vars, l, inq, rxn>>
+VARIABLES l, inq, rxn, ended
+tvars == <<vars, l, inq, rxn, ended>>
 Ev == Tr.events[l]
 More == l <= Len(Tr.events)
 
-TInit == TLCSet(1, 0) /\ Init /\ l = 1 /\ inq = <<>> /\ rxn = 0
+TInit == TLCSet(1, 0) /\ Init /\ l = 1 /\ inq = <<>> /\ rxn = 0 /\ ended = FALSE
 
 (* Begin + Write of a call, with the system bytes the call really used (the library's allocator is not part of the
    model's claim).  The two steps are taken together at the moment the peer sees the frame: the peer never sends anything
@@ -45,20 +45,32 @@ TBeginWrite(s, b) ==
     /\ sendCnt' = sendCnt + 1 /\ inflight' = inflight + 1
     /\ pc' = [pc EXCEPT ![s] = "written"]
     /\ UNCHANGED <<cur, live, sel, out, handled, nextSb, peerBudget, errCnt, dropCnt>>
-Quiet == UNCHANGED <<l, inq, rxn>>
+Quiet == UNCHANGED <<l, inq, rxn, ended>>
 TTake(s) == Take(s) /\ Quiet
 TTimeout(s) == Tr.outcomes[s] = "t3" /\ Timeout(s) /\ Quiet
 TCancel(s) == Tr.outcomes[s] = "ctx" /\ Cancel(s) /\ Quiet
-TRecv == /\ inq /= <<>> /\ Recv(Head(inq).k, Head(inq).sb) /\ inq' = Tail(inq) /\ UNCHANGED <<l, rxn>>
+TReleased(s) == Tr.outcomes[s] = "closed" /\ Released(s) /\ Quiet
+TRecv == /\ inq /= <<>> /\ Recv(Head(inq).k, Head(inq).sb) /\ inq' = Tail(inq) /\ UNCHANGED <<l, rxn, ended>>
+(* generations: the harness ended generation 1 (peer close / reset, or Close()); the library notices at some later point;
+   whatever was still in flight to the dead generation is lost *)
+TEndEpoch == /\ ended /\ EndEpoch /\ inq' = <<>> /\ UNCHANGED <<l, rxn, ended>>
+TNewEpoch == /\ NewEpoch /\ rxn' = 0 /\ UNCHANGED <<l, inq, ended>>
+TReselect == /\ cur = 2 /\ Reselect /\ Quiet
 
 TraceRx == /\ More /\ Ev.d = "rx"
            /\ \E s \in TrSenders : Tr.call_sbi[s] = Ev.sbi /\ TBeginWrite(s, Ev.sbi)
-           /\ rxn' = rxn + 1 /\ l' = l + 1 /\ UNCHANGED inq
+           /\ cur = Ev.gen
+           /\ rxn' = rxn + 1 /\ l' = l + 1 /\ UNCHANGED <<inq, ended>>
+(* a frame written on a generation the library has already left (or is leaving) never arrives *)
 TraceTx == /\ More /\ Ev.d = "tx"
-           /\ inq' = Append(inq, [k |-> Ev.k, sb |-> Ev.sbi]) /\ l' = l + 1 /\ UNCHANGED <<vars, rxn>>
+           /\ inq' = IF Ev.gen = cur /\ live[cur] THEN Append(inq, [k |-> Ev.k, sb |-> Ev.sbi]) ELSE inq
+           /\ l' = l + 1 /\ UNCHANGED <<vars, rxn, ended>>
+TraceEnd == /\ More /\ Ev.d = "end" /\ ended' = TRUE /\ l' = l + 1 /\ UNCHANGED <<vars, inq, rxn>>
+TraceNew == /\ More /\ Ev.d = "new" /\ cur = 2 /\ live[2] /\ sel           \* the peer has seen the new generation selected
+            /\ l' = l + 1 /\ UNCHANGED <<vars, inq, rxn, ended>>
 
-TNext == \/ \E s \in TrSenders : TTake(s) \/ TTimeout(s) \/ TCancel(s)
-         \/ TRecv \/ TraceRx \/ TraceTx
+TNext == \/ \E s \in TrSenders : TTake(s) \/ TTimeout(s) \/ TCancel(s) \/ TReleased(s)
+         \/ TRecv \/ TEndEpoch \/ TNewEpoch \/ TReselect \/ TraceRx \/ TraceTx \/ TraceEnd \/ TraceNew
 TSpec == TInit /\ [][TNext]_tvars
 
 OutKind(o) == IF o[1] = "-" THEN "pending" ELSE o[1]
